@@ -32,8 +32,11 @@ func MakeFromRequest(r *http.Request) CacheKey {
 		scheme = "https"
 	}
 	normHost := strings.ToLower(r.Host)
-	normPath := path.Clean(r.URL.Path)
-	if p := r.URL.Path; (strings.HasSuffix(p, "/") || strings.HasSuffix(p, "/.") || strings.HasSuffix(p, "/..")) && normPath != "/" {
+	// The path as the origin will see it (the raw path is what gets forwarded), with only the escapes of
+	// unreserved characters undone: "%41" is "A" written differently, but "/a%2Fb" is not "/a/b".
+	rawPath := decodeUnreserved(r.URL.EscapedPath())
+	normPath := path.Clean(rawPath)
+	if p := rawPath; (strings.HasSuffix(p, "/") || strings.HasSuffix(p, "/.") || strings.HasSuffix(p, "/..")) && normPath != "/" {
 		// path.Clean drops a trailing slash, but /dir/ and /dir are different resources.
 		// A final dot-segment leaves a trailing slash behind as well (RFC 3986 section 5.2.4).
 		normPath += "/"
@@ -43,6 +46,44 @@ func MakeFromRequest(r *http.Request) CacheKey {
 	stringKey := fmt.Sprintf("%q|%q|%q|%q|%q", scheme, r.Method, normHost, normPath, r.URL.RawQuery)
 	slog.Debug("Creating cache key", "key", stringKey)
 	return FromString(stringKey)
+}
+
+// decodeUnreserved undoes the percent-encoding of unreserved characters (RFC 3986 section 2.3: letters,
+// digits, "-", ".", "_", "~") and upper-cases the hex digits of every other escape. Escapes of reserved
+// characters stay as they are: decoding them would change which resource the path names.
+func decodeUnreserved(s string) string {
+	if !strings.Contains(s, "%") {
+		return s
+	}
+	var b strings.Builder
+	for i := 0; i < len(s); i++ {
+		if s[i] == '%' && i+2 < len(s) && isHexDigit(s[i+1]) && isHexDigit(s[i+2]) {
+			c := unhex(s[i+1])<<4 | unhex(s[i+2])
+			if c >= 'a' && c <= 'z' || c >= 'A' && c <= 'Z' || c >= '0' && c <= '9' || c == '-' || c == '.' || c == '_' || c == '~' {
+				b.WriteByte(c)
+			} else {
+				b.WriteString(strings.ToUpper(s[i : i+3]))
+			}
+			i += 2
+			continue
+		}
+		b.WriteByte(s[i])
+	}
+	return b.String()
+}
+
+func isHexDigit(c byte) bool {
+	return c >= '0' && c <= '9' || c >= 'a' && c <= 'f' || c >= 'A' && c <= 'F'
+}
+
+func unhex(c byte) byte {
+	switch {
+	case c >= '0' && c <= '9':
+		return c - '0'
+	case c >= 'a' && c <= 'f':
+		return c - 'a' + 10
+	}
+	return c - 'A' + 10
 }
 
 func (ck *CacheKey) String() string {
